@@ -38,13 +38,18 @@
 #include <signal.h>
 #include <unistd.h>
 #include <sys/time.h>
+#include <fcntl.h>
 using namespace Givaro;
 
 // ---------------------------------------------------------------- per-case CPU watchdog (as in c17_array0.C): a case = one block on one operand pair (all rounds)
 static volatile long g_case = 0, g_case_seen = -1;
 static char g_case_name[1200] = "";
+static const char* g_stuck_flag = 0;         // C17_STUCK_FLAG: a file shared by the parallel workers of one stream; the first worker that finds a case
+                                             // that does not return creates it, the others leave at their next tick (exit 98): a hang costs ONE budget, not N
 static void on_prof(int) {
+    if (g_stuck_flag && access(g_stuck_flag, F_OK) == 0) _exit(98);
     if (g_case_seen == g_case) {
+        if (g_stuck_flag) { int fd = open(g_stuck_flag, O_CREAT | O_WRONLY, 0644); if (fd >= 0) close(fd); }
         static const char msg[] = "\nDOES-NOT-RETURN ";
         if (write(1, msg, sizeof msg - 1) < 0) {}
         if (write(1, g_case_name, strlen(g_case_name)) < 0) {}
@@ -54,7 +59,8 @@ static void on_prof(int) {
     g_case_seen = g_case;
 }
 static void start_watchdog() {
-    const char* b = getenv("C17_CPU_BUDGET"); long sec = b ? atol(b) : 20; if (sec <= 0) return;
+    const char* b = getenv("C17_CPU_BUDGET"); long sec = b ? atol(b) : 5; if (sec <= 0) return;     // a case is reported after between 1x and 2x this many seconds of CPU
+    g_stuck_flag = getenv("C17_STUCK_FLAG");
     struct sigaction sa; memset(&sa, 0, sizeof sa); sa.sa_handler = on_prof; sigaction(SIGPROF, &sa, 0);
     struct itimerval it; it.it_interval.tv_sec = sec; it.it_interval.tv_usec = 0; it.it_value = it.it_interval; setitimer(ITIMER_PROF, &it, 0);
 }
